@@ -15,6 +15,8 @@ Rec == ndJsonDeserialize(IOEnv.TRACE)
 InitState == 0
 
 Apply(s, e) ==
+  \* a vector kernel asked to score with fewer look-ahead rows than the motif needs may refuse (its documented panic)
+  IF e.ret = "refused" THEN [ok |-> TRUE, st |-> s, exp |-> 0] ELSE
   IF e.ret # "ok" THEN [ok |-> FALSE, st |-> s, exp |-> [why |-> "panic", kernel |-> e.kernel]]
   ELSE
   LET bad == {q \in 1..Len(e.sites) : ~SiteOK(e.regions, e.sites[q])}
